@@ -42,6 +42,12 @@ structure World where
   dbAcls   : List (Nat × Acl) := []
   /-- C15: after `restart p n` — (store key, n, full listing persisted before the restart) -/
   limited  : List (Nat × Int × List Nat) := []     -- source peer's entry hashes at sync time
+  /-- C05: per store key, the entries seen listed at rest or acknowledged to their writer: all of
+  them are covered by the cached heads, so a clean restart followed by `Load(-1)` must list them -/
+  durable  : List (Nat × List Nat) := []
+  /-- C05: after `restart p` (no limit): (store key, entries that must be listed again) -/
+  mustRecover : List (Nat × List Nat) := []
+  faulty   : Bool := false                -- a fetch failure is being injected (`failget`)
   lineNo   : Nat := 0
   nFail    : Nat := 0
   nObs     : Nat := 0
@@ -64,6 +70,11 @@ def World.setObs (w : World) (p : Nat) (o : PeerObs) : World :=
   { w with lastObs := (w.key p, o) :: w.lastObs.filter (·.1 != w.key p) }
 def World.entry (w : World) (n : Nat) : Option Entry := if n == 0 then none else w.entries[n - 1]?
 def World.entriesOf (w : World) (ns : List Nat) : List Entry := ns.filterMap w.entry
+/-- C05: the entries of store `k` that a clean restart must bring back -/
+def World.durableOf (w : World) (k : Nat) : List Nat :=
+  match w.durable.find? (fun (x : Nat × List Nat) => x.1 == k) with | some x => x.2 | none => []
+def World.setDurable (w : World) (k : Nat) (l : List Nat) : World :=
+  { w with durable := (k, l) :: w.durable.filter (fun (x : Nat × List Nat) => x.1 != k) }
 def World.rank (w : World) (p : Nat) : Nat := ((w.ranks.find? (·.1 == p)).map (·.2)).getD 999
 
 def insSorted (n : Nat) : List Nat → List Nat
@@ -130,6 +141,7 @@ def World.onAck (w : World) (toks : List String) : World :=
   else
     let n := entryNum r
     let w := { w with acked := n :: w.acked }
+    let w := w.setDurable (w.key p) (n :: w.durableOf (w.key p))
     let w := w.modelAdd p n
     -- C03 (local): a non-writer's local write must fail
     match w.entry n with
@@ -227,6 +239,15 @@ def World.onObs1 (w : World) (toks : List String) : World :=
         let single := ((w.entriesOf full).map (fun (e : Entry) => e.cid)).eraseDups.length ≤ 1
         if single && iv != full.drop (total - want) then
           w.fail "C15" "recent" s!"peer {p}: single-writer log, Load({n}) lists {showNums iv}, the {want} most recent are {showNums (full.drop (total - want))}" else w
+  -- C05 (recover): the implementation's own listing after a clean restart and an unlimited load
+  -- contains everything it listed at rest, or acknowledged, before the restart
+  let w := match w.mustRecover.find? (fun (x : Nat × List Nat) => x.1 == w.key p) with
+    | none => w
+    | some (_, must) =>
+      let missing := must.filter (fun n => !iv.contains n)
+      if missing.isEmpty then w else
+        w.fail "C05" "recover" s!"peer {p}: after restart and Load(-1) the entries {showNums (sortNums missing)}, listed or acknowledged before the restart, are gone (listing: {showNums iv})"
+  let w := { w with mustRecover := w.mustRecover.filter (fun (x : Nat × List Nat) => x.1 != w.key p) }
   -- (only the first observation after the restart is compared with the persisted log)
   let w := { w with limited := w.limited.filter (fun x => x.1 != w.key p) }
   -- a limited load of a multi-head log may keep different older entries than the model's unbounded fetch:
@@ -238,6 +259,8 @@ def World.onObs1 (w : World) (toks : List String) : World :=
       (w.setStore p s', s')
     else (w, s)
   let busy := w.inflight.contains (w.key p)
+  let w := if busy then w else
+    w.setDurable (w.key p) (iv ++ (w.durableOf (w.key p)).filter (fun n => !iv.contains n))
   let (w, s) := if w.resync.contains (w.key p) || busy then
       let s' := { s with status := { progress := ist.1, max := ist.2 } }
       ({ w.setStore p s' with resync := w.resync.filter (· != w.key p) }, s')
@@ -428,6 +451,10 @@ def World.onRestarted (w : World) (toks : List String) : World :=
     | .error _ => []
   let w := { w with lastObs := w.lastObs.filter (·.1 != w.key p),
                     limited := (w.key p, amount, full) :: w.limited.filter (·.1 != w.key p) }
+  let dur := w.durableOf (w.key p)
+  let w := if amount ≤ 0 && !w.faulty && r == "ok" then { w with mustRecover := (w.key p, dur) :: w.mustRecover.filter (fun (x : Nat × List Nat) => x.1 != w.key p) }
+           else { w with mustRecover := w.mustRecover.filter (fun (x : Nat × List Nat) => x.1 != w.key p) }
+  let w := if amount > 0 then w.setDurable (w.key p) [] else w
   match s.load w.acl w.fetchAll amount with
   | .ok s' =>
     let w := { w.setStore p s' with resync := w.key p :: w.resync }
@@ -457,6 +484,7 @@ def World.step (w : World) (line : String) : World :=
   | "op" =>
     let w := { w with pending := toks.drop 1 }
     let h := toks.getD 1 ""
+    let w := if h == "failget" then { w with faulty := true } else if h == "okget" then { w with faulty := false } else w
     if h == "usedb" then w.useDb (natOr (toks.getD 2 "") 0)
     else if ["put", "del", "add", "docput", "docdel", "docputall", "docputbatch", "sync", "pubdeliver", "exchange", "restart", "inject", "syncasync"].contains h then
       { w with lastOpDb := some w.curDb }
